@@ -61,6 +61,7 @@ class Cell:
         warns = world.run_scenario(project, 0)
         obs = world.observe(project, 0, info)
         obs["warnings"] = warns
+        obs["steps"] = world.LAST_STEPS[0]
         if self.post_hook is not None:
             self.post_hook(self, project, vals, obs, info)
         fails = self.judge(vals, obs, info)
@@ -79,7 +80,8 @@ class Cell:
         info["onshift"] = {r.fullId: [bool(r.data[0].onShift(i)) for i in range(info["size"])] for r in project.resources if r.leaf()}
         info["wt"] = [project.isWorkingTime(i) for i in range(info["size"])]
         obs = world.observe(project, 0, info)
-        obs["warnings"] = []
+        obs["warnings"] = None  # warnings go to stderr in a public-API run; the traced run checks them
+        obs["replay"] = True
         fails = self.judge(vals, obs, info)
         return {"reproduced": bool(fails), "detail": "; ".join(fails[:4]) if fails else "holds natively through the public API", "tjp": text}
 
